@@ -98,6 +98,53 @@ def build(optmod):
     return cs, [], {}
 
 
+def build_validate(optmod):
+    """validate_imports: every tab module that can be imported is reported by its file AND is gone from sys.modules afterwards --
+    whether or not it had been loaded before the call (a copy left in sys.modules is what ply would "import" instead of
+    rebuilding after the files are removed); modules that cannot be imported are reported missing."""
+    import itertools
+    cs = []
+    names = ('pkg.lextab_x', 'pkg.yacctab_x')
+    for importable in itertools.product((True, False), repeat=2):
+        for preloaded in itertools.product((True, False), repeat=2):
+            if any(p_ and not i_ for p_, i_ in zip(preloaded, importable)):
+                continue
+            state = {}
+
+            def reset(state=state, importable=importable, preloaded=preloaded):
+                state.clear()
+                state['modules'] = dict((n, PObj(object, {'__file__': '/p/%s.py' % n}, name='mod_' + n)) for n, p_ in zip(names, preloaded) if p_)
+                state['files'] = dict(zip(names, importable))
+            sysm = PObj(object, name='sys')
+            mods = PObj(object, name='sys.modules')
+
+            def imp(e, a, k, state=state):
+                n = a[0]
+                if not state['files'].get(n):
+                    from vf.pyvc.engine import PyRaise, PExc
+                    raise PyRaise(PExc(ImportError, tag=n))
+                if n not in state['modules']:
+                    state['modules'][n] = PObj(object, {'__file__': '/p/%s.py' % n}, name='mod_' + n)
+                return state['modules'][n]
+
+            def m_pop(e, a, k, state=state):
+                return state['modules'].pop(a[0]) if len(a) == 1 else state['modules'].pop(a[0], a[1])
+            mods.fields['pop'] = PExt('dict.pop', m_pop)
+            mods.fields['get'] = PExt('dict.get', lambda e, a, k, state=state: state['modules'].get(a[0], a[1] if len(a) > 1 else None))
+            mods.fields['__delitem__'] = PExt('dict.__delitem__', lambda e, a, k, state=state: state['modules'].pop(a[0]))
+            mods.fields['__contains__'] = PExt('dict.__contains__', lambda e, a, k, state=state: a[0] in state['modules'])
+            mods.fields['__getitem__'] = PExt('dict.__getitem__', lambda e, a, k, state=state: state['modules'][a[0]])
+            sysm.fields['modules'] = mods
+            env = {'__reset__': reset, 'sys': sysm, 'import_module': PExt('import_module', imp),
+                   'cached': Helper(lambda e, state=state: sorted(state['modules'])),
+                   'want_paths': Helper(lambda e, importable=importable: ['/p/%s.py' % n for n, i_ in zip(names, importable) if i_]),
+                   'want_missing': Helper(lambda e, importable=importable: [n for n, i_ in zip(names, importable) if not i_])}
+            cs.append(Contract(MODULE + ':validate_imports', params={'imports': Const(names)},
+                               ensures=['list(result[0]) == want_paths()', 'list(result[1]) == want_missing()', 'cached() == []'],
+                               env=env, notes='importable=%s preloaded=%s' % (importable, preloaded)))
+    return cs
+
+
 def build_all(optmod):
     """reoptimize_all: with monkey_patch the file ply writes is opened as UTF-8 whatever the locale, and every parser
     module goes through reoptimize / optimize_build."""
